@@ -209,6 +209,15 @@ def apply_fault(hist, step):
             hist.run(w.make_admin_job('rebuild_queues'), step)
         got = settle(hist, seed, step)
         hist.count('c02_recoveries_compared')
+        if step['job'].get('op') == 'admin' and step['job'].get('kind') in (
+                'create_branch', 'delete_branch'):
+            # scoping decision (DESIGN.md C02): content equality after
+            # recovery is asserted for PR / commit / queue jobs; an
+            # interrupted create/delete-branch job that is not re-runnable
+            # is a statistic.
+            if got != ref_trees:
+                hist.count('c02_stat_admin_job_not_rerunnable')
+            return
         if got != ref_trees:
             diff = sorted(n for n in set(got) | set(ref_trees)
                           if got.get(n) != ref_trees.get(n))
